@@ -567,8 +567,11 @@ class Supercell(object):
 
         # 2. identify the shortest common set of defects:
         defcount = {k: len(v) for k, v in selfdefects.items()}
-        deftype = min(defcount, key=defcount.get)  # key to min value from dictionary
-        shortset, matchset = selfdefects[deftype], otherdefects[deftype]
+        if defcount:
+            deftype = min(defcount, key=defcount.get)  # key to min value from dictionary
+            shortset, matchset = selfdefects[deftype], otherdefects[deftype]
+        else:
+            shortset, matchset = set(), set()  # defect-free: nothing to pre-screen the operations with
 
         mapping = None
         gocc = self.occ.copy()
